@@ -90,7 +90,11 @@ def run(ctx, mod):
             if msg:
                 key = None
                 if hasattr(mod, "finding_key"):
-                    key = mod.finding_key(c, msg)
+                    try:
+                        import inspect
+                        key = mod.finding_key(c, msg) if len(inspect.signature(mod.finding_key).parameters) >= 2 else mod.finding_key(msg)
+                    except Exception:
+                        key = None
                 else:
                     mk = re.search(r"\[finding key ([\w-]+)\]", str(msg))
                     key = mk.group(1) if mk else None
